@@ -81,6 +81,55 @@ type rollerEnv struct {
 	useSched bool
 	// acceptUnknown decides for fingerprints outside the menu (nil: refuse)
 	acceptUnknown func(id string) bool
+	// stall: fingerprints the server reads and then never answers (nothing is sent, not even an
+	// alert, and the connection stays open). Time is abstract: a read that can never be satisfied
+	// on a connection with a deadline returns a timeout and moves the virtual clock vnow to that
+	// deadline; a deadline that is not after vnow has expired.
+	stall map[string]bool
+	vnow  time.Time
+}
+
+// deadlineConn gives the in-memory endpoint the deadline behaviour described at rollerEnv.stall.
+type deadlineConn struct {
+	*peer.Endpoint
+	e  *rollerEnv
+	dl time.Time
+}
+
+type timeoutErr struct{}
+
+func (timeoutErr) Error() string   { return "i/o timeout (virtual clock)" }
+func (timeoutErr) Timeout() bool   { return true }
+func (timeoutErr) Temporary() bool { return true }
+
+func (d *deadlineConn) expired() bool {
+	d.e.mu.Lock()
+	defer d.e.mu.Unlock()
+	return !d.dl.IsZero() && !d.dl.After(d.e.vnow)
+}
+func (d *deadlineConn) SetDeadline(t time.Time) error      { d.dl = t; return nil }
+func (d *deadlineConn) SetReadDeadline(t time.Time) error  { d.dl = t; return nil }
+func (d *deadlineConn) SetWriteDeadline(t time.Time) error { return nil }
+func (d *deadlineConn) Write(b []byte) (int, error) {
+	if d.expired() {
+		return 0, timeoutErr{}
+	}
+	return d.Endpoint.Write(b)
+}
+func (d *deadlineConn) Read(b []byte) (int, error) {
+	if d.expired() {
+		return 0, timeoutErr{}
+	}
+	n, err := d.Endpoint.Read(b)
+	if err == peer.ErrStalled && !d.dl.IsZero() {
+		d.e.mu.Lock()
+		if d.dl.After(d.e.vnow) {
+			d.e.vnow = d.dl
+		}
+		d.e.mu.Unlock()
+		return 0, timeoutErr{}
+	}
+	return n, err
 }
 
 var errInjectedDial = errors.New("verif: injected dial failure")
@@ -92,6 +141,9 @@ func helloSig(chi *stdtls.ClientHelloInfo) string {
 		for _, v := range vs {
 			if v&0x0f0f == 0x0a0a && v>>8 == v&0xff {
 				continue
+			}
+			if tag == "ext" && v == 21 {
+				continue // padding comes and goes with the hello's length (i.e. with the server name), not with the fingerprint
 			}
 			keep = append(keep, int(v))
 		}
@@ -125,7 +177,7 @@ func callerName() string {
 	return "g?"
 }
 
-func (e *rollerEnv) serverConfig(caller string) *stdtls.Config {
+func (e *rollerEnv) serverConfig(caller string, onStall func()) *stdtls.Config {
 	f := peer.Fix()
 	cfg := &stdtls.Config{
 		Certificates: []stdtls.Certificate{{Certificate: f.LongLived.Certificate, PrivateKey: f.LongLived.PrivateKey}, {Certificate: f.LongLivedRSA.Certificate, PrivateKey: f.LongLivedRSA.PrivateKey}},
@@ -154,7 +206,13 @@ func (e *rollerEnv) serverConfig(caller string) *stdtls.Config {
 		if !ok && e.sigs != nil {
 			acc = e.acceptUnknown != nil && e.acceptUnknown(name)
 		}
-		e.attempts = append(e.attempts, rollerAttempt{caller, name, chi.ServerName, acc})
+		e.attempts = append(e.attempts, rollerAttempt{caller, name, chi.ServerName, acc && !e.stall[name]})
+		if e.stall[name] {
+			if onStall != nil {
+				onStall()
+			}
+			return nil, errStalledServer
+		}
 		if !acc {
 			return nil, errors.New("fingerprint not accepted")
 		}
@@ -162,6 +220,8 @@ func (e *rollerEnv) serverConfig(caller string) *stdtls.Config {
 	}
 	return cfg
 }
+
+var errStalledServer = errors.New("verif: this server never answers")
 
 func (e *rollerEnv) dial(network, addr string, _ time.Duration) (net.Conn, error) {
 	caller := callerName()
@@ -172,7 +232,8 @@ func (e *rollerEnv) dial(network, addr string, _ time.Duration) (net.Conn, error
 	if fail != 0 && n == fail {
 		return nil, errInjectedDial
 	}
-	cfg := e.serverConfig(caller)
+	stalled := false
+	cfg := e.serverConfig(caller, func() { stalled = true })
 	if e.useSched && sched.Current() != nil {
 		l := newSchedLink()
 		l.direct = true
@@ -183,10 +244,19 @@ func (e *rollerEnv) dial(network, addr string, _ time.Duration) (net.Conn, error
 		return clientEnd{l}, nil
 	}
 	ce, se := peer.Pipe()
+	se.Transform = func(n int, b []byte) []byte {
+		if stalled {
+			return nil // a stalled server says nothing at all
+		}
+		return b
+	}
 	srv := stdtls.Server(se, cfg)
 	go func() {
 		defer se.SetIdle()
 		if err := srv.Handshake(); err != nil {
+			if stalled {
+				return // keeps the connection open and silent
+			}
 			se.Close()
 			return
 		}
@@ -201,6 +271,9 @@ func (e *rollerEnv) dial(network, addr string, _ time.Duration) (net.Conn, error
 	e.mu.Lock()
 	e.closers = append(e.closers, func() { ce.Close() })
 	e.mu.Unlock()
+	if e.stall != nil {
+		return &deadlineConn{Endpoint: ce, e: e}, nil
+	}
 	return ce, nil
 }
 
@@ -781,7 +854,7 @@ func c29Unseeded() *explore.Scenario {
 				e.accept, e.acceptUnknown = map[string]bool{menu[1].name: true}, nil
 			}
 			e.mu.Unlock()
-			c2, err2 := roller.Dial("tcp", "x", "example.com")
+			c2, err2 := roller.Dial("tcp", "x", "b.example")
 			att := append([]rollerAttempt(nil), e.attempts...)
 			var order []string
 			seen := map[string]bool{}
@@ -879,6 +952,104 @@ func c29SeededAndUnseeded() *explore.Scenario {
 	}
 }
 
+// c29Stalled — one configured fingerprint meets a server that reads the ClientHello and then says
+// nothing until the handshake timeout; the others are refused or accepted at once. Every ordered
+// choice of (list, stalled id, accepted set, shuffle seed): the Dial still tries every id once in
+// its order until one is accepted, each attempt with its own handshake timeout, and records it.
+func c29Stalled() *explore.Scenario {
+	menu := c29Menu()
+	return &explore.Scenario{
+		Name:    "one-fingerprint-stalls-until-the-handshake-timeout",
+		Workers: 1,
+		Run: func(x *explore.X) (r explore.Result) {
+			c29Learn()
+			if c29Gate != "" {
+				r.Violate("INFRA|c29-learn", "%s", c29Gate)
+				return
+			}
+			list := c29Lists[x.Choose("list", len(c29Lists))]
+			stallIdx := list[x.Choose("stalled", len(list))]
+			mask := x.Choose("accepted", 1<<len(list))
+			seedN := x.Choose("shuffle", 4)
+			e := newRollerEnv(c29Sigs)
+			e.stall = map[string]bool{menu[stallIdx].name: true}
+			e.accept = map[string]bool{}
+			var cfg []string
+			for i, mi := range list {
+				cfg = append(cfg, menu[mi].name)
+				if mask>>i&1 == 1 {
+					e.accept[menu[mi].name] = true
+				}
+			}
+			what := fmt.Sprintf("ids=%v stalled=%s accepted=%v shuffle-seed=%d", cfg, menu[stallIdx].name, keysOfBool(e.accept), seedN)
+			vnet.SetDial(e.dial)
+			defer vnet.SetDial(nil)
+			defer e.closeAll()
+			roller := c29Roller(menu, list)
+			tls.VerifRollerSeed(roller, tls.PRNGSeed{byte(seedN), 0x29, 0x77})
+			conn, err := roller.Dial("tcp", "x", "a.example")
+			att := append([]rollerAttempt(nil), e.attempts...)
+			var order []string
+			seen := map[string]bool{}
+			wantOK := ""
+			for _, a := range att {
+				order = append(order, a.id)
+				if seen[a.id] {
+					r.Violate("C29|stall|fingerprint-tried-twice", "%s: attempts %v", what, order)
+				}
+				seen[a.id] = true
+			}
+			for _, n := range cfg {
+				if e.accept[n] && !e.stall[n] {
+					wantOK = "some"
+				}
+			}
+			r.Nontrivial = true
+			r.Class = what
+			if wantOK != "" {
+				last := ""
+				if len(att) > 0 {
+					last = att[len(att)-1].id
+				}
+				if conn == nil || err != nil {
+					r.Violate("C29|stall|dial-fails-although-a-fingerprint-is-accepted", "%s: attempts %v, Dial returned conn=%v err=%v (a stalled attempt may cost its own timeout, not the later attempts')", what, order, conn != nil, err)
+				} else if !e.accept[last] || e.stall[last] || workingName(roller) != last {
+					r.Violate("C29|stall|wrong-fingerprint-recorded", "%s: attempts %v, WorkingHelloID=%q", what, order, workingName(roller))
+				}
+				for _, a := range att[:max(len(att)-1, 0)] {
+					if e.accept[a.id] && !e.stall[a.id] {
+						r.Violate("C29|stall|went-on-after-success", "%s: attempts %v", what, order)
+					}
+				}
+				r.Count("stall_dials_succeeded", 1)
+				if seen[menu[stallIdx].name] {
+					r.Count("stall_timeout_then_success", 1)
+				}
+			} else {
+				if conn != nil || err == nil {
+					r.Violate("C29|stall|dial-succeeds-without-accepting-server", "%s: attempts %v", what, order)
+				}
+				if len(att) != len(cfg) {
+					r.Violate("C29|stall|not-every-id-tried", "%s: attempts %v", what, order)
+				}
+			}
+			r.Obs = fmt.Sprintf("attempts=%d|ok=%v", len(att), err == nil)
+			return
+		},
+	}
+}
+
+func keysOfBool(m map[string]bool) []string {
+	var ks []string
+	for k, v := range m {
+		if v {
+			ks = append(ks, k)
+		}
+	}
+	sort.Strings(ks)
+	return ks
+}
+
 func c29Scenarios(thorough bool) []*explore.Scenario {
 	b := 1
 	if thorough {
@@ -887,7 +1058,7 @@ func c29Scenarios(thorough bool) []*explore.Scenario {
 	if os.Getenv("C29_BOUND") != "" {
 		fmt.Sscan(os.Getenv("C29_BOUND"), &b)
 	}
-	return []*explore.Scenario{c29Sequential(thorough), c29Unseeded(), c29SeededAndUnseeded(), c29Concurrent(b, false)}
+	return []*explore.Scenario{c29Sequential(thorough), c29Unseeded(), c29SeededAndUnseeded(), c29Stalled(), c29Concurrent(b, false)}
 }
 
 func init() {
@@ -895,7 +1066,7 @@ func init() {
 		Init:          func(verifDir string) { c29Trust(verifDir) },
 		RaceScenarios: func(thorough bool) []*explore.Scenario { return []*explore.Scenario{c29Concurrent(0, true)} },
 		Run: func(c *explore.Check, thorough bool) {
-			c.Rule = "real Roller; net.DialTimeout redirected to in-memory connections to a standard-library TLS server that recognises each fingerprint and accepts a chosen subset. (1) explicit-state: the Roller's only state is WorkingHelloID, so every state {none, each configured id, an id no longer configured} — reached through the public API by a prefix Dial — x id lists {3 ids two of which share the client name, 4 ids incl. a seeded randomized one, 3 ids two of which are randomized ids differing only in their seed} x every acceptance subset x every attempt order the shuffle can produce (quick: 6 of 24 for the 4-id list) x dial failure at every position is executed, followed by one more Dial from the reached state; unseeded randomized ids (3 kinds x 6 shuffle seeds x 3 second servers): after one of their fresh fingerprints worked, WorkingHelloID carries its seed and the next Dial leads with exactly that fingerprint; a list holding a pinned and the unseeded id of one client (12 shuffle seeds): both stay separate entries, each tried once; (2) two concurrent Dials on one Roller under the controlled scheduler, all schedules with <= 1 (2) preemptions/free switches, x 4 acceptance sets x {no working id, one}. Oracle (reference Roller): first attempt is the working id if any, no id twice, only configured ids (plus the working one), stops at the first accepted attempt and returns that connection (complete, same id, SNI = server name on every attempt), records it; a dial error is returned at once; failure leaves WorkingHelloID alone and tries every id; concurrent: no deadlock/panic, each call explainable by the initial or the other call's working id, final WorkingHelloID is one of the successes. distinct = outcome class"
+			c.Rule = "real Roller; net.DialTimeout redirected to in-memory connections to a standard-library TLS server that recognises each fingerprint and accepts a chosen subset. (1) explicit-state: the Roller's only state is WorkingHelloID, so every state {none, each configured id, an id no longer configured} — reached through the public API by a prefix Dial — x id lists {3 ids two of which share the client name, 4 ids incl. a seeded randomized one, 3 ids two of which are randomized ids differing only in their seed} x every acceptance subset x every attempt order the shuffle can produce (quick: 6 of 24 for the 4-id list) x dial failure at every position is executed, followed by one more Dial from the reached state; unseeded randomized ids (3 kinds x 6 shuffle seeds x 3 second servers): after one of their fresh fingerprints worked, WorkingHelloID carries its seed and the next Dial leads with exactly that fingerprint; a list holding a pinned and the unseeded id of one client (12 shuffle seeds): both stay separate entries, each tried once; one fingerprint stalled (its server reads the ClientHello and then stays silent; deadlines and a virtual clock are modelled in the in-memory transport: the attempt ends at its deadline) x each id of each list x every acceptance subset x 4 shuffle seeds: the other ids are still tried, each with its own handshake timeout; (2) two concurrent Dials on one Roller under the controlled scheduler, all schedules with <= 1 (2) preemptions/free switches, x 4 acceptance sets x {no working id, one}. Oracle (reference Roller): first attempt is the working id if any, no id twice, only configured ids (plus the working one), stops at the first accepted attempt and returns that connection (complete, same id, SNI = server name on every attempt), records it; a dial error is returned at once; failure leaves WorkingHelloID alone and tries every id; concurrent: no deadlock/panic, each call explainable by the initial or the other call's working id, final WorkingHelloID is one of the successes. distinct = outcome class"
 			c.Assumptions = []string{"shuffle decisions are driven by replacing the Roller's private prng with seeded ones (in-package helper); one seed per reachable attempt order", "fingerprints are recognised from the server's ClientHelloInfo (suites, extension set, groups, versions, ALPN; GREASE ignored); the menu's signatures are checked to be pairwise distinct", "trust via SSL_CERT_FILE and the real clock (certificate valid 2021-2036)"}
 			runAll(c, c29Scenarios(thorough), 0)
 			attachRacePass(c)
